@@ -85,7 +85,8 @@ func (*baseExecutor) GetScanSlice(columnNames []string, tableMeta *types.TableMe
 				scanSlice = append(scanSlice, &scanVal)
 			}
 		default:
-			scanVal := sql.RawBytes{}
+			// nil, not empty: Scan leaves the target untouched for a NULL, which must stay a NULL in the image
+			var scanVal sql.RawBytes
 			scanSlice = append(scanSlice, &scanVal)
 		}
 	}
